@@ -168,6 +168,18 @@ func c11Spec(m c11Matrix, p map[string]string) bool {
 func c11Check(c *ctx, sess *core.Session, m c11Matrix, perms []map[string]string, sample bool) {
 	menc := vl.Enc(m.vl())
 	pm := m.impl()
+	// the nil permutation (a job without one) against a step that has a matrix: never a valid selection unless
+	// the matrix has no dimension at all; judged through the public entry point
+	if pm != nil && len(m.setup) > 0 {
+		step := &pipeline.CommandStep{Command: "echo {{matrix}}", Matrix: pm}
+		var ierr error
+		c.res.OracleChecks++
+		if pn, msg := guard(func() { ierr = step.InterpolateMatrixPermutation(nil) }); pn {
+			c.res.Fail(core.OracleFailure{What: "InterpolateMatrixPermutation(nil) panicked: " + msg, Input: map[string]any{"matrix": fmt.Sprint(m.vl())}})
+		} else if want := c11Spec(m, map[string]string{}); (ierr == nil) != want {
+			c.res.Fail(core.OracleFailure{What: "nil permutation on a step with a matrix", Input: map[string]any{"matrix": fmt.Sprint(m.vl())}, Got: fmt.Sprint(ierr), Want: map[bool]string{true: "accept", false: "reject"}[want]})
+		}
+	}
 	for _, p := range perms {
 		var got string
 		if pn, msg := guard(func() {
